@@ -46,12 +46,18 @@ _PARSERS = {}
 def get_parser(cfg):
     from metomi.isodatetime import parsers
     key = (cfg["xd"], cfg["only_basic"], tuple(cfg["assumed"]) if cfg["assumed"]
-           is not None else None, cfg["unknown"], cfg.get("truncated", False))
+           is not None else None, cfg["unknown"], cfg.get("truncated", False),
+           cfg.get("pdf"))
     if key not in _PARSERS:
+        extra = {}
+        if cfg.get("pdf"):
+            # a parser-wide default dump format: an explicit dump_as_parsed /
+            # dump_format of a parse call takes precedence over it
+            extra["dump_format"] = cfg["pdf"]
         _PARSERS[key] = parsers.TimePointParser(
             num_expanded_year_digits=cfg["xd"], allow_only_basic=cfg["only_basic"],
             assumed_time_zone=key[2], default_to_unknown_time_zone=cfg["unknown"],
-            allow_truncated=cfg.get("truncated", False))
+            allow_truncated=cfg.get("truncated", False), **extra)
     return _PARSERS[key]
 
 
@@ -225,6 +231,9 @@ def st_cfg(draw, truncated=False):
            "sys": list(draw(SYS))}
     if truncated:
         cfg["truncated"] = True
+    if draw(st.integers(0, 7)) == 0:
+        cfg["pdf"] = draw(st.sampled_from(["CCYYMMDDThhmmZ", "CCYY-DDDThh:mm:ss",
+                                           "+XCCYY-Www-DThh+hh"]))
     return cfg
 
 
